@@ -1828,6 +1828,13 @@ class PathSum(object):
             if all(x is not None for x in ks + vs):
                 return ('dict', tuple(zip(ks, vs)))
             return None
+        if isinstance(e, ast.Lambda) and module is not None:
+            # a function written in place: it can only see globals here
+            for f in self.db.funcs:
+                if f.node is e:
+                    return ('fn', f, None)
+            return ('fn', FuncInfo('<lambda>', e, module, cls=None,
+                                   kind='function', outer=None), None)
         if isinstance(e, ast.UnaryOp) and isinstance(e.op, ast.USub):
             v = self._literal(e.operand, module, depth + 1)
             if v is not None and is_const(v) and isinstance(
